@@ -6,9 +6,16 @@
    the lexer (types/lexer.go: consumeString, consumeRegexp, consumeNumber) reads back as one token with
    exactly the original payload, for ALL strings / regexp sources / int64 values (models: Model/QuoteLex.v).
    Floats: the digits are produced and read by Go's fmt / strconv, which are not modelled (partial; the
-   direct check exercises them). *)
+   direct check exercises them).
+
+   Layer L3 (parameters <-> types, models: Model/TypePrint.v): for EVERY type T of the fragment Model/Ty.v that
+   the Go constructors can build, resolving the expression that T prints (its name and, parameter by parameter,
+   what Parameters() writes, nested types recursively) through the positional creators yields T again, and that
+   result prints the same text. The layer between (tokens <-> expressions, the parser proper) has no theorem
+   yet: the direct check and the correspondence run cover it (partial). *)
 From Coq Require Import ZArith NArith Bool List.
-From PcoreV Require Import Model.Base Model.QuoteLex Proofs.QuoteLexUtf8 Proofs.QuoteLexProofs.
+From PcoreV Require Import Model.Base Model.Ty Model.QuoteLex Model.TypePrint
+  Proofs.QuoteLexUtf8 Proofs.QuoteLexProofs Proofs.TypePrintProofs.
 Import ListNotations.
 Open Scope N_scope.
 
@@ -114,4 +121,80 @@ Example C05_int_nonvacuous :
   parse_int0 (format_int (-9223372036854775808)) = Some (-9223372036854775808)%Z /\
   parse_int0 [48; 120; 49; 70] = Some 31%Z /\ parse_int0 [48; 49; 48] = Some 8%Z /\
   parse_int0 [57; 50; 50; 51; 51; 55; 50; 48; 51; 54; 56; 53; 52; 55; 55; 53; 56; 48; 56] = None.
+Proof. repeat split; vm_compute; reflexivity. Qed.
+
+(* ------------------------------------------------------------------------------------------ *)
+(* ---- types: Parameters() against the positional creators ---- *)
+Open Scope Z_scope.
+
+(* The statement at full strength: every type comes back from its own parameters. *)
+Definition C05_types_statement : Prop :=
+  forall (to_lower : str -> str) (rx_ok : str -> bool) (accepts_undef : ty -> bool) (T : ty),
+    reparse to_lower rx_ok accepts_undef T = COk T.
+
+(* It holds, up to the Tuple flag `size != nil` that TupleType.Equals ignores (canon), for every type that
+   the constructors build (c05_ok: bounds in order, Enum values lower-cased when case-insensitive, Struct keys
+   well-formed, no one-member Variant) except, by specification, an exact-value String type where it prints
+   as String. to_lower (strings.ToLower), rx_ok (regexp.Compile succeeds) and accepts_undef (the lattice's
+   isAssignable(t, Undef), which decides how a Struct key is written) are arbitrary: the round trip does not
+   depend on them beyond accepts_undef ignoring the Tuple flag. *)
+Theorem C05_resolve_params :
+  forall (to_lower : str -> str) (rx_ok : str -> bool) (accepts_undef : ty -> bool),
+    (forall t, accepts_undef (canon t) = accepts_undef t) ->
+    forall T, c05_ok to_lower T = true ->
+              reparse to_lower rx_ok accepts_undef T = COk (canon T).
+Proof. exact reparse_canon. Qed.
+Print Assumptions C05_resolve_params.
+
+(* A type as the parser builds it (canon T) is reproduced exactly ... *)
+Theorem C05_resolve_params_exact :
+  forall (to_lower : str -> str) (rx_ok : str -> bool) (accepts_undef : ty -> bool),
+    (forall t, accepts_undef (canon t) = accepts_undef t) ->
+    forall T, c05_ok to_lower T = true ->
+              reparse to_lower rx_ok accepts_undef (canon T) = COk (canon T).
+Proof. exact reparse_fixpoint. Qed.
+Print Assumptions C05_resolve_params_exact.
+
+(* ... and prints the same text as T (whatever the float rendering oracle is). *)
+Theorem C05_prints_same :
+  forall (float_text : Z -> str) (accepts_undef : ty -> bool),
+    (forall t, accepts_undef (canon t) = accepts_undef t) ->
+    forall T, print_ty float_text accepts_undef (canon T) = print_ty float_text accepts_undef T.
+Proof. exact print_canon. Qed.
+Print Assumptions C05_prints_same.
+
+Theorem C05_canon_idempotent : forall T, canon (canon T) = canon T.
+Proof. exact canon_idem. Qed.
+Print Assumptions C05_canon_idempotent.
+
+(* The by-specification exception, on the model: String['a'] prints as String and comes back as String. *)
+Example C05_exact_string_prints_as_string :
+  let au := fun _ : ty => false in
+  print_ty (fun _ => []) au (TStringVal [97]%N) = [83; 116; 114; 105; 110; 103]%N /\
+  reparse (fun s => s) (fun _ => true) au (TStringVal [97]%N) = COk TString.
+Proof. split; vm_compute; reflexivity. Qed.
+
+(* Why c05_ok excludes a one-member Variant (NewVariantType never builds one): Variant[T] is T. *)
+Example C05_single_variant_is_its_member :
+  reparse (fun s => s) (fun _ => true) (fun _ => false) (TVariant [TInteger 0 5]) = COk (TInteger 0 5).
+Proof. vm_compute. reflexivity. Qed.
+
+(* Non-vacuity: Struct[{'a' => Optional[Integer[0, 5]], Optional['b'] => Tuple[String, Integer, 1, default],
+   'c' => Array[0, 0], 'd' => Hash[String, Enum['x', true], 2, 3]}] satisfies the hypotheses, prints that text
+   (the key of 'a' is written NotUndef['a'] because its value accepts undef) and is resolved back. *)
+Example C05_types_nonvacuous :
+  let au := fun t : ty => match t with TOptional _ | TAny | TUndef => true | _ => false end in
+  let T := TStruct [ ([97]%N, (TStringVal [97]%N, TOptional (TInteger 0 5)));
+                     ([98]%N, (TOptional (TStringVal [98]%N), TTuple [TString; TInteger min_int64 max_int64] true 1 max_int64));
+                     ([99]%N, (TStringVal [99]%N, TArray TUnit 0 0));
+                     ([100]%N, (TStringVal [100]%N, THash TString (TEnum true [[120]%N]) 2 3)) ] in
+  c05_ok (fun s => s) T = true /\
+  reparse (fun s => s) (fun _ => true) au T = COk T /\
+  print_ty (fun _ => []) au T =
+    [83;116;114;117;99;116;91;123;78;111;116;85;110;100;101;102;91;39;97;39;93;32;61;62;32;79;112;116;105;111;110;
+     97;108;91;73;110;116;101;103;101;114;91;48;44;32;53;93;93;44;32;79;112;116;105;111;110;97;108;91;39;98;39;93;32;
+     61;62;32;84;117;112;108;101;91;83;116;114;105;110;103;44;32;73;110;116;101;103;101;114;44;32;49;44;32;100;101;
+     102;97;117;108;116;93;44;32;39;99;39;32;61;62;32;65;114;114;97;121;91;48;44;32;48;93;44;32;39;100;39;32;61;62;
+     32;72;97;115;104;91;83;116;114;105;110;103;44;32;69;110;117;109;91;39;120;39;44;32;116;114;117;101;93;44;32;50;
+     44;32;51;93;125;93]%N.
 Proof. repeat split; vm_compute; reflexivity. Qed.
